@@ -112,6 +112,9 @@ def run_case(arg):
                     wv = np.array([float(af[0] * x + af[1]) for x in case["warm"]], dtype=float).astype(dt)
                     norm(wv)
                 res = norm(arr)
+                if not np.array_equal(arr, arr0, equal_nan=True):
+                    out.append(("C20:inputs-modified", f"{tag}: {how} {st}: the normalisation modified the caller's array"))
+                    break
                 msg = check_out(res, f"{st}{skw}", how, st == "linear")
                 if msg:
                     out.append((f"C20:{st}:{'mask' if 'mask' in msg else 'order' if 'monotone' in msg or 'order' in msg else 'value'}", f"{tag}: {msg}"))
